@@ -859,34 +859,41 @@ class Ev:
         self.mass = impl["masses"]
 
     def fr(self, t):
-        """-> (coords float64 (n,3), class, centroid_reliable)
+        """-> (coords float64 (n,3), class, centroid_reliable, rigid)
         class 0: bit-exact copy of generated data; 1: centred (float rounding only); 2: superposed (the float32
         QCP rotation is compared loosely, the rigid-motion invariants tightly); 3: superposed with a rotation that
-        the data do not determine (fewer than 3 atoms / collinear): invariants only"""
+        the data determine badly or not at all (fewer than 3 atoms, collinear, or two nearly equal leading
+        eigenvalues of the correlation problem): invariants only.
+        rigid: the frame is ONE rigid image of generated data (a stack of separately superposed parts is not, so
+        distances between its parts are not invariants)"""
         tag = t[0]
         if tag == "Raw":
-            return np.array(self.src[str(t[1])]["xyz"][t[2]], dtype=np.float64).reshape(-1, 3), 0, True
+            return np.array(self.src[str(t[1])]["xyz"][t[2]], dtype=np.float64).reshape(-1, 3), 0, True, True
         if tag == "Sub":
-            x, c, cr = self.fr(t[2])
-            return x[t[1]], c, cr and c < 2
+            x, c, cr, rg = self.fr(t[2])
+            return x[t[1]], c, cr and c < 2, rg
         if tag == "Cen":
-            x, c, cr = self.fr(t[1])
-            return x - x.mean(0), max(c, 1), True
+            x, c, cr, rg = self.fr(t[1])
+            return x - x.mean(0), max(c, 1), True, rg
         if tag == "CenM":
-            x, c, cr = self.fr(t[2])
+            x, c, cr, rg = self.fr(t[2])
             m = np.array([self.mass[str(k)] for k in t[1]], dtype=np.float64)
             m = m / m.sum()
-            return x - x.T.dot(m), max(c, 1), cr and c < 2
+            return x - x.T.dot(m), max(c, 1), cr and c < 2, rg
         if tag == "Sup":
-            x, c, cr = self.fr(t[1])
-            r, c2, cr2 = self.fr(t[2])
-            sv = np.linalg.svd((x - x.mean(0)).T @ (r - r.mean(0)), compute_uv=False)
-            degenerate = x.shape[0] < 3 or sv[1] < 1e-3 * max(sv[0], 1e-9) or c == 3 or c2 == 3
-            return kabsch(x, r), (3 if degenerate else 2), cr2
+            x, c, cr, rg = self.fr(t[1])
+            r, c2, cr2, rg2 = self.fr(t[2])
+            cov = (x - x.mean(0)).T @ (r - r.mean(0))
+            u, sv, vt = np.linalg.svd(cov)
+            d = np.sign(np.linalg.det(u @ vt))
+            degenerate = (x.shape[0] < 3 or sv[1] < 1e-3 * max(sv[0], 1e-9) or (sv[1] + d * sv[2]) < 0.05 * max(sv[0], 1e-9)
+                          or c == 3 or c2 == 3)
+            return kabsch(x, r), (3 if degenerate else 2), cr2, rg
         if tag == "Stk":
-            x, c, cr = self.fr(t[1])
-            y, c2, cr2 = self.fr(t[2])
-            return np.vstack((x, y)), max(c, c2), False if max(c, c2) >= 2 else True
+            x, c, cr, rg = self.fr(t[1])
+            y, c2, cr2, rg2 = self.fr(t[2])
+            loose = max(c, c2) >= 2
+            return np.vstack((x, y)), max(c, c2), not loose, (rg and rg2 and not loose)
         raise ValueError(tag)
 
     def tval(self, v):
@@ -908,9 +915,10 @@ class Ev:
 
 TOL = {0: 0.0, 1: 2e-3, 2: 0.15}
 SUP_STATS = []
+SUP_NOT_OPTIMAL = []      # superposed frames that are a correct rigid image but not the optimal one (C06's business)
 
 
-def frame_mismatch(x, got, cls, centroid_ok):
+def frame_mismatch(x, got, cls, centroid_ok, rigid=True):
     """None when the implementation's frame `got` is the frame the model's term denotes (x, float64)"""
     if x.shape != got.shape:
         return "atom count %s vs %s" % (x.shape, got.shape)
@@ -919,16 +927,23 @@ def frame_mismatch(x, got, cls, centroid_ok):
     if cls <= 1:
         err = float(np.abs(x - got).max())
         return None if err <= TOL[cls] else "max deviation %.4g > %g" % (err, TOL[cls])
-    dx = np.sqrt(((x[:, None, :] - x[None, :, :]) ** 2).sum(-1))
-    dg = np.sqrt(((got[:, None, :] - got[None, :, :]) ** 2).sum(-1))
-    if np.abs(dx - dg).max() > 5e-3:
-        return "interatomic distances differ by %.4g" % float(np.abs(dx - dg).max())
+    if rigid:
+        dx = np.sqrt(((x[:, None, :] - x[None, :, :]) ** 2).sum(-1))
+        dg = np.sqrt(((got[:, None, :] - got[None, :, :]) ** 2).sum(-1))
+        if np.abs(dx - dg).max() > 5e-3:
+            return "interatomic distances differ by %.4g" % float(np.abs(dx - dg).max())
     if centroid_ok and np.abs(x.mean(0) - got.mean(0)).max() > 5e-3:
         return "centroid differs by %.4g" % float(np.abs(x.mean(0) - got.mean(0)).max())
     if cls == 2:
         err = float(np.abs(x - got).max())
         SUP_STATS.append(err)
         if err > TOL[2]:
+            if rigid and centroid_ok:
+                # interatomic distances and centroid are right: mdtraj produced a rigid image of the right frame at the
+                # right place, only not the optimal rotation.  That is a defect of the superposition kernel (property
+                # C06), not of the bookkeeping modelled here: counted, not treated as a mismatch.
+                SUP_NOT_OPTIMAL.append(err)
+                return None
             return "superposed coordinates deviate by %.4g > %g" % (err, TOL[2])
     return None
 
@@ -953,9 +968,9 @@ def compare(model, impl):
             d.append(pre + "xyz shape model (%d,%d) impl %s" % (len(frames), mt["na"], it["shape"]))
             continue
         for f, term in enumerate(frames):
-            x, cls, cok = ev.fr(term)
+            x, cls, cok, rigid = ev.fr(term)
             got = np.array(it["xyz"][f], dtype=np.float64).reshape(-1, 3)
-            why = frame_mismatch(x, got, cls, cok)
+            why = frame_mismatch(x, got, cls, cok, rigid)
             if why:
                 d.append(pre + "frame %d is not %s: %s" % (f, term, why))
                 break
@@ -990,7 +1005,7 @@ def compare(model, impl):
                 d.append(pre + "_rmsd_traces length model %d impl %d (ndim %s)" % (len(mtr["val"]), len(itr), it["traces_ndim"]))
             else:
                 for f, term in enumerate(mtr["val"]):
-                    x, cls, _cok = ev.fr(term)
+                    x, cls, _cok, _rg = ev.fr(term)
                     g = float((x ** 2).sum())
                     if abs(g - itr[f]) > (1e-3 if cls < 2 else 3e-2) * (1.0 + abs(g)):
                         d.append(pre + "_rmsd_traces[%d] is not the trace of %s (model %.6g impl %.6g)" % (f, term, g, itr[f]))
@@ -1071,6 +1086,8 @@ def run_cases(ctx, cases, replaying=False):
                    "trajectory.py reads as variant '%s' but the implementation behaves like '%s'; e.g. ops=%s -> %s" % (
                        VNAME[sv], VNAME[agree], cases[i]["ops"], diffs[i][sv][:2]))
     ctx.notes.setdefault("coverage_extra", {})["source_text_variant"] = VNAME.get(sv)
+    ctx.notes["coverage_extra"]["superposed_frames_compared"] = len(SUP_STATS)
+    ctx.notes["coverage_extra"]["superposed_frames_rigid_but_not_optimal(C06, not counted as mismatch)"] = len(SUP_NOT_OPTIMAL)
     # 2. the property, judged by the model-free oracles on the implementation
     for ci, (c, im, w) in enumerate(zip(cases, impl, worlds)):
         case = {"seed": c["seed"], "specs": c["specs"], "ops": c["ops"]}
